@@ -61,6 +61,31 @@ fn typed_conversions(v: &Value) -> Vec<(usize, &'static str, Option<Value>)> {
     ]
 }
 
+/// The typed Hayson deserialisers, fed the Hayson text of a value of any kind (a typed conversion like TryFrom).
+fn typed_json(text: &str) -> Vec<(usize, &'static str, Option<Value>)> {
+    use libhaystack::val::{Marker, Na, Remove};
+    fn de<T: serde::de::DeserializeOwned>(text: &str) -> Option<T> {
+        serde_json::from_str::<T>(text).ok()
+    }
+    vec![
+        (1, "json:Remove", de::<Remove>(text).map(|_| Value::Remove)),
+        (2, "json:Marker", de::<Marker>(text).map(|_| Value::Marker)),
+        (3, "json:Na", de::<Na>(text).map(|_| Value::Na)),
+        (5, "json:Number", de::<Number>(text).map(Value::from)),
+        (6, "json:Str", de::<Str>(text).map(Value::from)),
+        (7, "json:Uri", de::<Uri>(text).map(Value::from)),
+        (8, "json:Ref", de::<Ref>(text).map(Value::from)),
+        (9, "json:Symbol", de::<Symbol>(text).map(Value::from)),
+        (10, "json:Date", de::<Date>(text).map(Value::from)),
+        (11, "json:Time", de::<Time>(text).map(Value::from)),
+        (12, "json:DateTime", de::<DateTime>(text).map(Value::from)),
+        (13, "json:Coord", de::<Coord>(text).map(Value::from)),
+        (14, "json:XStr", de::<XStr>(text).map(Value::from)),
+        (16, "json:Dict", de::<Dict>(text).map(Value::from)),
+        (17, "json:Grid", de::<Grid>(text).map(Value::from)),
+    ]
+}
+
 fn dict_getters(d: &Dict, key: &str) -> Vec<(usize, &'static str, Option<Value>)> {
     vec![
         (4, "get_bool", d.get_bool(key).map(|x| Value::from(*x))),
@@ -181,6 +206,29 @@ fn check_value(ctx: &mut Ctx, m: &MVal, v: &Value) {
             None => {
                 if k == kind {
                     ctx.violation(&format!("tryfrom:{}:rejects-own-kind", name), &format!("{name}::try_from rejected a {}", m.kind_name()), json!({"value": truncate(&m.show(), 300)}));
+                }
+            }
+        }
+    }
+}
+
+/// typed Hayson deserialisation succeeds exactly for the matching kind and returns the payload
+fn check_typed_json(ctx: &mut Ctx, m: &MVal, v: &Value) {
+    let Ok(text) = serde_json::to_string(v) else { return };
+    let kind = m.kind();
+    ctx.stratum("typed-json-matrix");
+    for (k, name, got) in typed_json(&text) {
+        match got {
+            Some(back) => {
+                if k != kind {
+                    ctx.violation(&format!("tryfrom:{}:accepts:{}", name, m.kind_name()), &format!("the typed Hayson deserialiser {name} accepted the Hayson of a {}", m.kind_name()), json!({"json": truncate(&text, 300)}));
+                } else if observe(&back) != *m {
+                    ctx.violation(&format!("tryfrom:{}:payload", name), &format!("{name} returned {} for {}", truncate(&observe(&back).show(), 200), truncate(&m.show(), 200)), json!({"json": truncate(&text, 300)}));
+                }
+            }
+            None => {
+                if k == kind {
+                    ctx.violation(&format!("tryfrom:{}:rejects-own-kind", name), &format!("{name} rejected the Hayson of a {}", m.kind_name()), json!({"json": truncate(&text, 300)}));
                 }
             }
         }
@@ -341,6 +389,7 @@ pub fn run(ctx: &mut Ctx) {
             ctx.sample(m.kind_name(), json!(truncate(&m.show(), 200)));
         }
         check_value(ctx, &m, &v);
+        check_typed_json(ctx, &m, &v);
         check_dict_getters(ctx, &mut rng, &m, &v);
     }
     let n = ctx.n(1_500, 40_000);
